@@ -49,6 +49,8 @@ type C05Scenario struct {
 	Client  ClientCfg       `json:"client"`
 	Server  refsmtpd.Config `json:"server"`
 	Sched   uint64          `json:"sched"`
+	// Direct, if set, is the second workload (smtp package used directly, c05_direct.go).
+	Direct *C05Direct `json:"direct,omitempty"`
 }
 
 type c05 struct{}
@@ -109,6 +111,9 @@ func (p *c05) Gen(seed uint64, i int, tier string) (any, bool) {
 		return nil, false
 	}
 	r := sim.NewRand(sim.Derive(seed, 5, uint64(i)))
+	if i%5 == 4 {
+		return &C05Scenario{Direct: genDirect(r, i, seed)}, true
+	}
 	sc := &C05Scenario{Sched: sim.Derive(seed, 5, uint64(i), 1)}
 	f := genAddr(r)
 	sc.From = &f
@@ -161,6 +166,9 @@ func (p *c05) Gen(seed uint64, i int, tier string) (any, bool) {
 
 func (p *c05) Exec(t *testing.T, scAny any) Outcome {
 	sc := scAny.(*C05Scenario)
+	if sc.Direct != nil {
+		return p.execDirect(t, sc.Direct)
+	}
 	var out Outcome
 	var env *NetEnv
 	var call *CallRec
@@ -396,6 +404,14 @@ func (p *c05) Exec(t *testing.T, scAny any) Outcome {
 func (p *c05) Shrink(scAny any) []any {
 	sc := scAny.(*C05Scenario)
 	var out []any
+	if sc.Direct != nil {
+		for i := range sc.Direct.Calls {
+			d := *sc.Direct
+			d.Calls = append(append([]C05Call(nil), sc.Direct.Calls[:i]...), sc.Direct.Calls[i+1:]...)
+			out = append(out, &C05Scenario{Direct: &d})
+		}
+		return out
+	}
 	cp := func() *C05Scenario {
 		c := *sc
 		c.To = append([]AddrSpec(nil), sc.To...)
@@ -469,7 +485,7 @@ func (p *c05) Shrink(scAny any) []any {
 
 func (p *c05) Info() PropInfo {
 	return PropInfo{
-		Rule: "seeded search: sender, optional envelope sender, 1..3 To, 0..1 Cc, 0..1 Bcc addresses generated by meaning (local part: letters/digits, atext specials, the specials blank < > @ , ; : \\ \" ( ) [ ] .. TAB, UTF-8, leading/trailing/double dots, hand-picked smuggling attempts such as 'x> SIZE=1'; domain: plain, IDN, address literal; optional display names needing quoting or RFC 2047) and written out with correct RFC 5322 quoting through From/EnvelopeFrom/AddTo/AddCc/AddBcc; HELO names incl. blanks, CR/LF, UTF-8; credentials with blanks, CR/LF, = and ,; DSN option combinations; occasionally a refused MAIL/RCPT; non-trivial = the dialogue got past the greeting; distinct = distinct (address kinds, HELO name, auth type, DSN options, mailboxes)",
+		Rule: "seeded search: sender, optional envelope sender, 1..3 To, 0..1 Cc, 0..1 Bcc addresses generated by meaning (local part: letters/digits, atext specials, the specials blank < > @ , ; : \\ \" ( ) [ ] .. TAB, UTF-8, leading/trailing/double dots, hand-picked smuggling attempts such as 'x> SIZE=1'; domain: plain, IDN, address literal; optional display names needing quoting or RFC 2047) and written out with correct RFC 5322 quoting through From/EnvelopeFrom/AddTo/AddCc/AddBcc; HELO names incl. blanks, CR/LF, UTF-8; credentials with blanks, CR/LF, = and ,; DSN option combinations; occasionally a refused MAIL/RCPT; every fifth run drives the smtp package directly: 3..10 calls of Hello/Mail/Rcpt/Verify/Noop/Reset/Data with arguments that carry unique markers, some with CR/LF, blanks or parameter injections — a refused argument's marker must never reach the wire, in that call or any later one; non-trivial = the dialogue got past the greeting; distinct = distinct (address kinds, HELO name, auth type, DSN options, mailboxes)",
 		Assumptions: []string{"'the mailbox the caller put on the message' is the (local part, domain) pair the address was generated from; its textual form is produced by net/mail's Address.String, independent of go-mail",
 			"an address the setter refuses is simply not part of the message (counted, not judged)",
 			"SMTPUTF8 and 8BITMIME are always advertised here, so non-ASCII paths are legal on the wire (advertising is C04's subject)"},
